@@ -445,6 +445,11 @@ def get_item(interp, o, k):
         if isinstance(o, SText):
             raise Unsupported("index into symbolic text")
         return _select(interp, list(items), idx)
+    if isinstance(o, AssocDict):
+        found, v = o.lookup(interp, k)
+        if not found:
+            interp.py_raise(KeyError, OPAQUE)
+        return v
     if isinstance(o, dict):
         if is_sym(k) or (isinstance(k, tuple) and contains_sym(k)):
             for key in list(o.keys()):
@@ -473,6 +478,11 @@ def set_item(interp, o, k, v):
         if isinstance(m, types.FunctionType):
             return interp.call(m, (o, k, v), {})
         interp.py_raise(TypeError, "'%s' object does not support item assignment" % o.cls.__name__)
+    if isinstance(o, AssocDict):
+        if isinstance(k, (list, dict, set)):
+            interp.py_raise(TypeError, "unhashable type")
+        o.entries.append((k, v))
+        return
     if isinstance(o, list):
         interp.check_mutation(o, "list.__setitem__")
         if isinstance(k, slice):
@@ -527,6 +537,38 @@ def del_item(interp, o, k):
             k = sym.ctx().choose_int(k, "index")
         return interp.native(operator.delitem, o, k)
     raise Unsupported("del item of %s" % type(o).__name__)
+
+
+class AssocDict:
+    """dict whose keys may be symbolic (association list; last binding wins).  Stands for a real
+    dict in proofs about code that stores / looks up symbolic keys."""
+
+    def __init__(self, entries=()):
+        self.entries = list(entries)
+
+    def lookup(self, interp, k):
+        for key, val in reversed(self.entries):
+            if interp.test(interp.eq(key, k)):
+                return True, val
+        return False, None
+
+    def get(self, k, default=None):
+        from .values import interp as _i
+        found, v = self.lookup(_i(), k)
+        return v if found else default
+
+    def __len__(self):
+        raise Unsupported("len of a dict with symbolic keys")
+
+
+def assoc_attr(interp, d, name):
+    if name == "get":
+        return d.get
+    if name == "clear":
+        def clear():
+            d.entries.clear()
+        return clear
+    raise Unsupported("dict.%s on a dict with symbolic keys" % name)
 
 
 # ----------------------------------------------------------------------------- builtin functions
